@@ -34,6 +34,7 @@ func runC11(c *core.Ctx) {
 	rulePublishedNotRecycled(c, "C11-R9", "pdf")
 	ruleCopierStructure(c)
 	ruleCopyOneStep(c)
+	ruleCopiedElementsTranslated(c)
 	ruleInStreamGuards(c, "C11-R8") // copied streams: dictionary strings are encrypted under the target object's key
 }
 
@@ -993,5 +994,97 @@ func ruleCopyOneStep(c *core.Ctx) {
 			}
 		}
 		o.Require(gets == 1 || o.Status != core.Discharged, "expected exactly one Get on the source, found %d", gets)
+	})
+}
+
+// ruleCopiedElementsTranslated (C11-R12): whatever a method of the Copier
+// stores into the dictionary or array it builds has been produced by the
+// Copier itself (Copy, CopyDict, CopyArray, CopyReference or a helper method
+// of the Copier), or is nil or a constant.  A value taken from the source and
+// stored as it is may contain references, which then carry source object
+// numbers into the target file (they point at unrelated or missing objects,
+// and the object they meant is neither copied nor shared).
+func ruleCopiedElementsTranslated(c *core.Ctx) {
+	c.Check("C11-R12", "pdf.(*Copier)/elements-translated", "every element a Copier method stores into a container it builds was produced by a Copier method (translated to the target file)", func(o *core.Ob) {
+		pkg := c.Prog.Pkg("pdf")
+		stores := 0
+		for _, fn := range c.Prog.Funcs(pkg) {
+			if !strings.HasPrefix(fn.Key, "pdf.(*Copier).") || fn.Decl.Body == nil || fn.Decl.Recv == nil || len(fn.Decl.Recv.List[0].Names) != 1 {
+				continue
+			}
+			info := fn.Info()
+			recv := info.Defs[fn.Decl.Recv.List[0].Names[0]]
+			g := fn.Graph()
+			isContainer := func(e ast.Expr) bool {
+				id, ok := ast.Unparen(e).(*ast.Ident)
+				if !ok {
+					return false
+				}
+				v, ok := info.ObjectOf(id).(*types.Var)
+				if !ok || v.IsField() || v.Pkg() == nil || v.Parent() == v.Pkg().Scope() {
+					return false
+				}
+				return core.IsNamed(v.Type(), "pdf", "Dict") || core.IsNamed(v.Type(), "pdf", "Array")
+			}
+			translated := func(at *core.V, e ast.Expr) (bool, string) {
+				for _, vc := range valueCases(g, at, e, 3) {
+					x := ast.Unparen(vc.Expr)
+					if core.IsNil(info, x) {
+						continue
+					}
+					if tv, ok := info.Types[x]; ok && tv.Value != nil {
+						continue
+					}
+					for {
+						// conversions and type assertions of a translated value
+						if cv, ok := x.(*ast.CallExpr); ok && len(cv.Args) == 1 {
+							if tv, ok := info.Types[cv.Fun]; ok && tv.IsType() {
+								x = ast.Unparen(cv.Args[0])
+								continue
+							}
+						}
+						if ta, ok := x.(*ast.TypeAssertExpr); ok {
+							x = ast.Unparen(ta.X)
+							continue
+						}
+						break
+					}
+					call, ok := x.(*ast.CallExpr)
+					if !ok {
+						return false, core.ExprStr(vc.Expr)
+					}
+					sel, ok := ast.Unparen(call.Fun).(*ast.SelectorExpr)
+					if !ok || core.ObjOf(info, sel.X) != recv {
+						return false, core.ExprStr(vc.Expr)
+					}
+				}
+				return true, ""
+			}
+			for _, v := range g.Vs {
+				as, ok := v.AST.(*ast.AssignStmt)
+				if !ok || len(as.Lhs) != len(as.Rhs) {
+					continue
+				}
+				for i, l := range as.Lhs {
+					if ix, ok := ast.Unparen(l).(*ast.IndexExpr); ok && isContainer(ix.X) {
+						stores++
+						o.At(fn.Site(as, "element stored"))
+						if ok, why := translated(v, as.Rhs[i]); !ok {
+							o.FailAt(fn.Site(as, ""), "%s stores %s into the copy as it is: references inside it keep their source object numbers", fn.Key, why)
+						}
+					}
+					if call, ok := ast.Unparen(as.Rhs[i]).(*ast.CallExpr); ok && core.CalleeKey(info, call) == "builtin.append" && len(call.Args) >= 2 && isContainer(l) && !call.Ellipsis.IsValid() {
+						for _, a := range call.Args[1:] {
+							stores++
+							o.At(fn.Site(as, "element appended"))
+							if ok, why := translated(v, a); !ok {
+								o.FailAt(fn.Site(as, ""), "%s appends %s to the copy as it is: references inside it keep their source object numbers", fn.Key, why)
+							}
+						}
+					}
+				}
+			}
+		}
+		o.Shape(stores >= 2, "expected stores into the copied dictionary and array, found %d", stores)
 	})
 }
